@@ -63,7 +63,7 @@ func (r *Recorder) Emit(name string, kv map[string]any) Event {
 	}
 	r.mu.Lock()
 	r.seq++
-	ev["seq"] = r.seq
+	ev["eseq"] = r.seq
 	if r.counts == nil {
 		r.counts = map[string]int{}
 	}
